@@ -245,7 +245,18 @@ pub fn gen_float(args: &Args) {
                     cmp.insert(op.to_string(), Value::Array(v));
                 }
             }
-            writeln!(f, "{}", json!({"id":id,"a":float_fields(a),"b":float_fields(b),"at":ta,"bt":tb,"cmp":cmp,"ar":ar})).unwrap();
+            // the operand as a program of its own: the literal (or the expression that spells a special value) must
+            // denote exactly this float; and so must a spelling with more digits than are needed to identify it
+            let long = |x: f64, t: &str| -> String {
+                if x.is_finite() && x.abs() >= 1e-5 && x.abs() < 1e15 {
+                    let l = format!("{:.25}", x.abs());
+                    if x.is_sign_negative() { format!("(-{l})") } else { l }
+                } else {
+                    t.to_string()
+                }
+            };
+            let lit = vec![observe_float(&ta), observe_float(&tb), observe_float(&long(a, &ta)), observe_float(&long(b, &tb))];
+            writeln!(f, "{}", json!({"id":id,"a":float_fields(a),"b":float_fields(b),"at":ta,"bt":tb,"cmp":cmp,"ar":ar,"lit":lit})).unwrap();
             id += 1;
         }
     }
